@@ -198,6 +198,8 @@ def replay_file(path: str, verbose: bool = True) -> int:
     from . import checks
     doc = json.load(open(path))
     spec = checks.get_spec(doc["check"])
+    if doc["plan"].get("hash_seeds"):
+        driver.set_hash_seeds(0, explicit=doc["plan"]["hash_seeds"])
     with driver.SimHost(debug=bool(os.environ.get("VERIF_DEBUG"))) as host:
         ex = driver.execute_plan(host.info(), doc["plan"])
         res = spec["profile"].check(doc["plan"], ex, set(spec["props"]))
